@@ -128,6 +128,19 @@ void h_run(Case &c) {
     hwloc_topology_dup(&Q, A); r = hwloc_topology_diff_apply(Q, df, 0); CHECK(c, r == 0, "apply", "apply returned %d", r); pre = dump_topology(Q); r = hwloc_topology_diff_apply(Q, df, 0); CHECK(c, r == -1, "apply_failure_index", "applying the diff a second time returned %d instead of -1", r);
     CHECK(c, first_diff(pre, dump_topology(Q)).empty(), "rollback", "a second (failing) apply of the same diff changed the topology: %s", first_diff(pre, dump_topology(Q)).c_str());
     hwloc_topology_destroy(Q); c.cls("rollback:already-applied-entry"); }
+  // the same rollback contract for APPLY_REVERSE: Q holds B's values (A + the whole diff), entry N is made inapplicable, the reverse apply returns -N and Q is as before;
+  // then the reverse apply on A itself (which holds every OLD value) fails at entry 1 and changes nothing
+  { hwloc_topology_t Q; hwloc_topology_dup(&Q, A); r = hwloc_topology_diff_apply(Q, df, 0); CHECK(c, r == 0, "apply", "apply returned %d", r); std::string pre = dump_topology(Q);
+    int how2 = d.range(0, 2); if (how2 == 1 && x->obj_attr.obj_depth == hwloc_topology_get_depth(Q)) how2 = 0;
+    if (how2 == 0) x->obj_attr.obj_depth = 77; else if (how2 == 1) x->obj_attr.obj_index = 100000; else x->obj_attr.diff.generic.type = (hwloc_topology_diff_obj_attr_type_t)57;
+    r = hwloc_topology_diff_apply(Q, df, HWLOC_TOPOLOGY_DIFF_APPLY_REVERSE); CHECK(c, r == -N, "apply_failure_index", "reverse apply: entry %d of %d cannot be applied but apply returned %d", N, len, r);
+    CHECK(c, first_diff(pre, dump_topology(Q)).empty(), "rollback", "rollback of a failed reverse apply inexact (N=%d of %d): %s", N, len, first_diff(pre, dump_topology(Q)).c_str());
+    x->obj_attr.obj_depth = sdepth; x->obj_attr.obj_index = sidx; x->obj_attr.diff.generic.type = (hwloc_topology_diff_obj_attr_type_t)stype;
+    r = hwloc_topology_diff_apply(Q, df, HWLOC_TOPOLOGY_DIFF_APPLY_REVERSE); CHECK(c, r == 0, "reverse", "reverse apply returned %d", r);
+    CHECK(c, first_diff(fullA, dump_topology(Q)).empty(), "reverse_restores_A", "APPLY_REVERSE after a failed reverse apply did not restore A: %s", first_diff(fullA, dump_topology(Q)).c_str());
+    r = hwloc_topology_diff_apply(Q, df, HWLOC_TOPOLOGY_DIFF_APPLY_REVERSE); CHECK(c, r == -1, "apply_failure_index", "reverse apply on a topology that holds the old values returned %d instead of -1", r);
+    CHECK(c, first_diff(fullA, dump_topology(Q)).empty(), "rollback", "a failing reverse apply changed the topology: %s", first_diff(fullA, dump_topology(Q)).c_str());
+    hwloc_topology_destroy(Q); c.cls("rollback:reverse"); }
   c.descf("\n -> %d entries, rollback at N=%d (how=%d)", len, N, how);
   if (repobjs.size() >= 2 || N >= 2) c.nontrivial();
   hwloc_topology_diff_destroy(df); hwloc_topology_destroy(P); hwloc_topology_destroy(B);
